@@ -148,6 +148,7 @@ type c15R struct {
 	Frag   int     `json:"frag"`
 	FailAt int     `json:"fail_at"`
 	FailN  int     `json:"fail_n"`
+	Wrap   bool    `json:"fail_wraps_eof,omitempty"`
 	Read   readCfg `json:"read"`
 }
 
@@ -160,10 +161,13 @@ type stickySource struct {
 func (s *stickySource) Read(p []byte) (int, error) {
 	if s.failed {
 		s.calls++
+		if s.wrap {
+			return 0, errInjectedWrapped
+		}
 		return 0, errInjected
 	}
 	n, err := s.fragSource.Read(p)
-	if err == errInjected {
+	if err == errInjected || err == errInjectedWrapped {
 		s.failed = true
 	}
 	return n, err
@@ -176,7 +180,7 @@ func runC15R(k c15R, frame []byte) (res decodeOutcome, calls int) {
 
 func runC15Rpos(k c15R, frame []byte) (res decodeOutcome, calls int, pos int) {
 	ps := fragPatterns()
-	src := &stickySource{fragSource: fragSource{data: frame, pat: ps[k.Frag%len(ps)], failAt: k.FailAt, failN: k.FailN}}
+	src := &stickySource{fragSource: fragSource{data: frame, pat: ps[k.Frag%len(ps)], failAt: k.FailAt, failN: k.FailN, wrap: k.Wrap}}
 	defer func() {
 		if r := recover(); r != nil {
 			res.panic = fmt.Sprint(r)
@@ -302,8 +306,11 @@ func c15Run(c *ev.Ctx) {
 					ncalls = 400
 				}
 				for kf := 1; kf <= ncalls; kf++ {
-					for _, fn := range []int{0, 3} {
+					for _, fn := range []int{0, 3, -1} {
 						k := c15R{Opts: o, Len: base.Len, Frag: f, FailAt: kf, FailN: fn, Read: rc}
+						if fn < 0 {
+							k.FailN, k.Wrap = 0, true
+						}
 						res, _, pos := runC15Rpos(k, frame)
 						c.Eval(1)
 						c.Distinct(1)
